@@ -2,6 +2,8 @@
 #include "nmtools/array/index/pooling.hpp"
 #include "nmtools/array/index/sliding_window.hpp"
 #include "nmtools/array/view/convnd.hpp"
+#include "nmtools/array/view/pooling.hpp"
+#include "nmtools/array/ndarray/ndarray.hpp"
 
 namespace nm = nmtools;
 namespace ix = nmtools::index;
@@ -37,6 +39,24 @@ sv7_t  verif_conv_reshape_reduce(sv_t src, nm_size_t groups) { return ix::conv_r
 sv10_t verif_conv_reshape_bias(sv_t src) { return ix::conv_reshape_bias(src,two_t{}); }
 ai2_t  verif_conv_kernel_size(sv_t weight_shape) { return ix::conv_kernel_size(weight_shape,two_t{}); }
 ai2_t  verif_conv_expand_spacing(a2_t dilation) { return ix::conv_expand_spacing(dilation,two_t{}); }
+// the stride slices convnd applies after the windowing: (Ellipsis, ::s_a, ::s_b) on the two spatial axes in their natural order (H, W)
+a2_t   verif_conv_slices(a2_t stride)
+{
+    auto sl = ix::conv_slices(stride,two_t{});
+    return a2_t{ (nm_size_t)nm::get<2>(nm::get<1>(sl)), (nm_size_t)nm::get<2>(nm::get<2>(sl)) };
+}
 sv16_t verif_conv_pad(nm_size_t src_dim, a2_t padding) { return ix::conv_pad(cd_t(src_dim),padding,two_t{}); }
 // the instance convnd builds: windows on the last two axes (conv_window_axis = (-1,-2))
 sv_t   verif_sliding_window_conv(sv10_t idx, sv10_t dst_shape, sv_t src_shape, a2_t window) { return ix::sliding_window(idx,dst_shape,src_shape,window,ai2_t{-1,-2}); }
+
+// max pooling reducer on ONE 2x2 window of ints (the callable pool2d_t::operator() applies to each sliced window)
+using i4_t  = nmtools_array<int,4>;
+using wb_t  = nmtools::utl::static_vector<int,4>;
+using ws_t  = nmtools::utl::static_vector<nm_size_t,2>;
+using win_t = nmtools::array::ndarray_t<wb_t,ws_t>;
+int verif_max_reducer(i4_t v)
+{
+    win_t w; ws_t s; s.resize(2); s[0] = 2; s[1] = 2; w.resize(s);
+    w.data_[0] = v[0]; w.data_[1] = v[1]; w.data_[2] = v[2]; w.data_[3] = v[3];
+    return (int)nm::view::max_reducer_t{}(w);
+}
